@@ -259,14 +259,14 @@ func streamC49(h *H) {
 		return q
 	}
 	// ------------------------------------------------------------ exhaustive short strings
-	c49Enum(h, "019-ymdhx ", ml(4, 6), func(s string) { c49Dur(h, s) })
+	c49Enum(h, "019-ymdhx ", ml(4, 5), func(s string) { c49Dur(h, s) })
 	c49Enum(h, "019-+kKbTx ", ml(4, 5), func(s string) { c49Bytes(h, s) })
 	c49Enum(h, "019-+u x", ml(4, 5), func(s string) { c49Count(h, s) })
-	c49Enum(h, "a\\ '\"\t", ml(5, 7), func(s string) { c49Shell(h, s) })
+	c49Enum(h, "a\\ '\"\t", ml(5, 6), func(s string) { c49Shell(h, s) })
 	c49Enum(h, "0129/%.-Kn", ml(4, 5), func(s string) { c49Flags(h, s, false) })
 
 	// ------------------------------------------------------------ generated: long digit strings, structure
-	n := h.N(4000, 200000)
+	n := h.N(4000, 60000)
 	units := []string{"y", "m", "d", "h", "y", "m", "d", "h", "x", "", "s", "D", " "}
 	for i := 0; i < n; i++ {
 		// durations: 0..5 items, mostly valid
